@@ -612,6 +612,9 @@ func (link *LinkBase) writeData(data []byte) error {
 
 func (link *LinkBase) setupWorker(w *mgr.WorkerCtx) error {
 	peeringState, err := link.handleSetupMessages(link.outgoing)
+	if peeringState != nil {
+		defer peeringState.done()
+	}
 	// TODO: Improve error handling here.
 	if err == nil {
 		link.encSession, err = peeringState.finalize()
@@ -657,6 +660,9 @@ func (link *LinkBase) setupWorker(w *mgr.WorkerCtx) error {
 
 func (link *LinkBase) handleSetup(mgr *mgr.Manager) (*LinkBase, error) {
 	peeringState, err := link.handleSetupMessages(link.outgoing)
+	if peeringState != nil {
+		defer peeringState.done()
+	}
 	if err == nil {
 		link.encSession, err = peeringState.finalize()
 	}
@@ -692,7 +698,7 @@ func (link *LinkBase) handleSetup(mgr *mgr.Manager) (*LinkBase, error) {
 	return link, nil
 }
 
-func (link *LinkBase) handleSetupMessages(client bool) (*peeringRequestState, error) {
+func (link *LinkBase) handleSetupMessages(client bool) (_ *peeringRequestState, err error) {
 	builder := link.peering.instance.FrameBuilder()
 
 	// Initialize connection.
@@ -700,6 +706,12 @@ func (link *LinkBase) handleSetupMessages(client bool) (*peeringRequestState, er
 	if err != nil {
 		return nil, fmt.Errorf("create peering request (1): %w", err)
 	}
+	// Release the link setup slot if the setup fails here.
+	defer func() {
+		if err != nil {
+			state.done()
+		}
+	}()
 	err = link.writeFrame(f)
 	if err != nil {
 		return nil, fmt.Errorf("write peering request (1): %w", err)
